@@ -449,6 +449,20 @@ func (h *hDb) close() (bool, error) {
 		return false, err
 	}
 	h.tr.emit("close", "ok", s)
+	// the WAL files a clean Close leaves on disk (the next Open's replayer opens every one of them): the model
+	// keeps book of them as well
+	files, _ := filepath.Glob(filepath.Join(h.dir, simpledb.WriteAheadFolder, "*.wal"))
+	var nums []string
+	sort.Strings(files)
+	for _, f := range files {
+		n, err := strconv.Atoi(strings.TrimSuffix(filepath.Base(f), ".wal"))
+		if err != nil {
+			return false, fmt.Errorf("unexpected WAL file name %q", f)
+		}
+		nums = append(nums, strconv.Itoa(n))
+	}
+	h.tr.emit("wals", "w:"+strings.Join(nums, ";"), "?")
+	h.res.Stat(fmt.Sprintf("close:wal-files-left=%d", handlesMinInt(len(files), 6)))
 	return true, nil
 }
 
